@@ -53,7 +53,7 @@ class Readers(object):
         for offset, dtype in variants:
             paths = []
             for k in range(len(parts)):
-                p = d / ('p%d_%d_%s.bin' % (k, offset, np.dtype(dtype).name))
+                p = d / ('p%d_%d_%s.bin' % (9 + k, offset, np.dtype(dtype).name))   # p9, p10, ...: given order is not name order
                 write_flat(p, full[bounds[k]:bounds[k + 1]].astype(dtype), offset=offset)
                 paths.append(p)
             arg = paths if len(paths) > 1 else paths[0]
